@@ -1007,7 +1007,7 @@ func (s *BlockMapSpec) decode(content *hcl.BodyContent, blockLabels []blockLabel
 	}
 
 	if len(elems) == 0 {
-		return cty.MapValEmpty(s.Nested.impliedType()), diags
+		return cty.MapValEmpty(s.Nested.impliedType().WithoutOptionalAttributesDeep()), diags
 	}
 
 	var ctyMap func(map[string]interface{}, int) cty.Value
